@@ -1,6 +1,6 @@
 /-
-  Tie T1 for `banderwagon/element.go`: every function of the file except `BatchNormalize` is
-  translated from the current source on every run (`go/cmd/extract/elements.go` →
+  Tie T1 for `banderwagon/element.go`: every function of the file is
+  translated (`BatchNormalize` over a heap: `Tie/BatchNormalize.lean`; plus `computeY` / `GetPointFromX`) from the current source on every run (`go/cmd/extract/elements.go` →
   `Gen/Elements.lean`) over an environment `E : ElemEnv K S` of the external operations it calls;
   here each translated function is proved equal to the model function the property theorems of
   C06, C07, C08, C11, C19 are about:
@@ -386,7 +386,7 @@ theorem equal_real (sqrt : Fp → Option Fp) (p q : Pt) : go_Equal (realEnv sqrt
 
 end concrete
 
-/-- what the translator covered, and the one function it leaves to the heap model -/
-theorem coverage : Gen.Elements.notTranslated = ["BatchNormalize"] ∧ Gen.Elements.translated.length = 25 := by decide
+/-- what the translator covered: every function of `element.go` (and `computeY`, `GetPointFromX`) -/
+theorem coverage : Gen.Elements.notTranslated = [] ∧ Gen.Elements.translated.length = 26 := by decide
 
 end GoIpa.Tie.Elements
